@@ -769,6 +769,12 @@ class Interp(object):
         if isinstance(op, ast.Mod):
             ca, cb = concrete(a), concrete(b)
             if isinstance(a, str):
+                parts = b if isinstance(b, tuple) else (b,)
+                if all(isinstance(x, (str, int)) and not isinstance(x, bool) for x in parts):
+                    try:
+                        return a % b
+                    except (TypeError, ValueError):
+                        return a
                 return a
             if ca is not None and cb is not None:
                 return ca % cb
